@@ -880,10 +880,23 @@ func sizesFamily(budget time.Duration) mc.Family {
 		v := v
 		cases = append(cases, cse{fmt.Sprintf("ItalicAngle %v", v), func() *afm.Metrics { m := base(); m.ItalicAngle = v; return m }})
 	}
+	histCases := historyCases()
+	nSize := len(cases)
+	_ = nSize
 	return mc.Family{
-		Name: "sizes-and-precision", Items: len(cases), Budget: budget,
-		Rule: fmt.Sprintf("%d metrics values written and re-read by the library: Notice of 255..60000 bytes (every length around 4096 and 8192), FullName / FontName / a glyph name of 4090, 4097, 30000 bytes, one glyph with 10..3000 ligatures (one line each), 300 and 5000 glyphs with twice as many kerning pairs, ItalicAngle over 13 values that need up to 17 significant digits; oracle: deep-equal metrics after one cycle, byte-identical file after a second; non-trivial = all", len(cases)),
+		Name: "sizes-and-precision", Items: len(cases) + len(histCases), Budget: budget,
+		Rule: fmt.Sprintf("%d metrics values written and re-read by the library: Notice of 255..60000 bytes (every length around 4096 and 8192), FullName / FontName / a glyph name of 4090, 4097, 30000 bytes, one glyph with 10..3000 ligatures (one line each), 300 and 5000 glyphs with twice as many kerning pairs, ItalicAngle over 13 values that need up to 17 significant digits; oracle: deep-equal metrics after one cycle, byte-identical file after a second; plus %d history cases: a write that follows a write which failed after 0, 40, 200 or 1000 bytes gives the same bytes as without it, and a value returned by Read may be overwritten by the caller (encoding, glyph map, kerning list) without changing what later Read calls return (files with every glyph unencoded, none unencoded, no glyphs); non-trivial = all", len(cases), len(histCases)),
 		Body: func(c *mc.Ctx, item int) mc.Verdict {
+			if item >= len(cases) {
+				h := histCases[item-len(cases)]
+				c.Step()
+				if msg := h.run(); msg != "" {
+					v := mc.Fail("C15:history:"+h.key, h.name+": "+msg)
+					v.Render = h.name
+					return v
+				}
+				return mc.Pass("history-independent", true)
+			}
 			cs := cases[item]
 			m := cs.make()
 			var b1 bytes.Buffer
@@ -924,9 +937,122 @@ func sizesFamily(budget time.Duration) mc.Family {
 			}
 			return v
 		},
-		Describe: func(item int) string { return cases[item].name },
+		Describe: func(item int) string {
+			if item >= len(cases) {
+				return histCases[item-len(cases)].name
+			}
+			return cases[item].name
+		},
 		CrashKey: func(item int) string { return "C15:crash:sizes" },
 	}
+}
+
+type historyCase struct {
+	name, key string
+	run       func() string // "" = fine
+}
+
+type failAfter struct{ left int }
+
+func (w *failAfter) Write(p []byte) (int, error) {
+	if len(p) > w.left {
+		n := w.left
+		w.left = 0
+		return n, fmt.Errorf("injected write fault")
+	}
+	w.left -= len(p)
+	return len(p), nil
+}
+
+func historyCases() []historyCase {
+	small := func(name string, n int) *afm.Metrics {
+		m := &afm.Metrics{Glyphs: map[string]*afm.GlyphInfo{}, Encoding: make([]string, 256), FontName: name, FullName: name + " Regular", Version: "1.0", Notice: "notice of " + name}
+		for i := range m.Encoding {
+			m.Encoding[i] = ".notdef"
+		}
+		for i := 0; i < n; i++ {
+			g := &afm.GlyphInfo{WidthX: float64(300 + 10*i)}
+			g.BBox.URx, g.BBox.URy = float64(250+i), 700
+			nm := fmt.Sprintf("%s%d", strings.ToLower(name[:1]), i)
+			m.Glyphs[nm] = g
+			m.Encoding[65+i] = nm
+		}
+		if n > 1 {
+			m.Kern = []*afm.KernPair{{Left: strings.ToLower(name[:1]) + "0", Right: strings.ToLower(name[:1]) + "1", Adjust: -25}}
+		}
+		return m
+	}
+	var out []historyCase
+	for _, k := range []int{0, 40, 200, 1000} {
+		k := k
+		out = append(out, historyCase{fmt.Sprintf("Write after a Write of other metrics that failed after %d bytes", k), "write-after-failed-write", func() string {
+			var ref bytes.Buffer
+			if err := small("Second", 2).Write(&ref); err != nil {
+				return "reference write failed: " + err.Error()
+			}
+			small("First", 40).Write(&failAfter{left: k})
+			var got bytes.Buffer
+			if err := small("Second", 2).Write(&got); err != nil {
+				return "write failed: " + err.Error()
+			}
+			if !bytes.Equal(got.Bytes(), ref.Bytes()) {
+				return fmt.Sprintf("the output differs from the same write made before the failed one: %d bytes instead of %d, starting %q", got.Len(), ref.Len(), got.Bytes()[:min(80, got.Len())])
+			}
+			return ""
+		}})
+	}
+	texts := map[string]string{
+		"every glyph unencoded": "StartFontMetrics 4.1\nFontName U\nFullName U R\nStartCharMetrics 2\nC -1 ; WX 500 ; N a ; B 0 0 400 700 ;\nC -1 ; WX 600 ; N b ; B 0 0 500 700 ; L a ab ;\nEndCharMetrics\nStartKernData\nStartKernPairs 1\nKPX a b -10\nEndKernPairs\nEndKernData\nEndFontMetrics\n",
+		"every glyph encoded":   "StartFontMetrics 4.1\nFontName E\nFullName E R\nStartCharMetrics 2\nC 65 ; WX 500 ; N a ; B 0 0 400 700 ;\nC 66 ; WX 600 ; N b ; B 0 0 500 700 ;\nEndCharMetrics\nEndFontMetrics\n",
+		"no glyphs":             "StartFontMetrics 4.1\nFontName N\nFullName N R\nStartCharMetrics 0\nEndCharMetrics\nEndFontMetrics\n",
+	}
+	var names []string
+	for n := range texts {
+		names = append(names, n)
+	}
+	sort.Strings(names)
+	// what each text reads as, established before any result has been touched
+	// (and therefore the same in every re-execution within this process)
+	pristine := map[string]string{}
+	for _, n := range names {
+		m, err := afm.Read(strings.NewReader(texts[n]))
+		pristine[n] = observe.Dump(m) + fmt.Sprint(" err=", err)
+	}
+	for _, first := range names {
+		for _, second := range names {
+			first, second := first, second
+			out = append(out, historyCase{fmt.Sprintf("Read(%s), result overwritten by the caller, then Read(%s)", first, second), "read-result-shared", func() string {
+				want := pristine[second]
+				m, err := afm.Read(strings.NewReader(texts[first]))
+				if err != nil {
+					return "read failed: " + err.Error()
+				}
+				for i := range m.Encoding {
+					m.Encoding[i] = "alpha"
+				}
+				for _, g := range m.Glyphs {
+					g.WidthX = -1
+					for k := range g.Ligatures {
+						g.Ligatures[k] = "overwritten"
+					}
+				}
+				m.Glyphs["extra"] = &afm.GlyphInfo{WidthX: 1}
+				for _, kp := range m.Kern {
+					kp.Adjust = 99
+				}
+				m.Kern = append(m.Kern[:0], &afm.KernPair{Left: "x", Right: "y", Adjust: 1})
+				again, err := afm.Read(strings.NewReader(texts[second]))
+				if err != nil {
+					return "second read failed: " + err.Error()
+				}
+				if got := observe.Dump(again) + " err=<nil>"; got != want {
+					return "a later Read returns something else than before the caller overwrote an earlier result: " + got
+				}
+				return ""
+			}})
+		}
+	}
+	return out
 }
 
 func sortedLines(s string) string {
